@@ -90,6 +90,11 @@ class GuardRun:
             return "(de_json_t %s)" % c.arg
         if c.op == "ser_text":
             return "(ser_json_t %s)" % c.arg
+        if c.op == "ser_mp_bytes":
+            return "(ser_mp_t %s)" % c.arg
+        if c.op == "de_mp" and (c.decl.family() == "str" or (c.decl.family() == "int" and c.decl.inner not in ("u128", "i128"))):
+            # String and <= 64-bit integer documents are read by the model itself (Sem/MsgPack)
+            return "(de_mp_t%s)" % c.arg[2:-1]
         if c.op in ("de", "de_json", "de_ron", "de_mp", "de_self", "de_seq1"):
             return "(de %s)" % (c.oracle if c.oracle and c.oracle != "-" else "none")
         if c.op in ("default", "arb_range", "msgs", "arb_decide"):
